@@ -374,12 +374,14 @@ def loopSt (inp : Input) : St :=
     (fun s l => if prefilter inp l then (resMatches inp l).foldl (fun s m => applyOne inp s l m) s else s)
     (initSt inp)
 
-/-- the filter of the final flush: `any(atom in nodes_to_remove for atom in key)` where the key is
-`(*atoms, version)` — the version number is tested as if it were an atom, as the code does -/
+/-- the filter of the final flush BEFORE repository commit 18c3f8a: `any(atom in nodes_to_remove for atom
+in key)` with the dictionary key `(*atoms, version)` — the version number was tested as if it were an
+atom.  Kept for the regression statement `C02_version_clash_regression`. -/
 def keyHitsRemoved (removed : List Nat) (k : Key) : Bool :=
   (k.atoms ++ [k.version]).any (fun x => removed.contains x)
 
-/-- what the property states: an atom of the interaction is scheduled for removal -/
+/-- the filter of the final flush (`any(atom in nodes_to_remove for atom in interaction.atoms)`), which is
+also what the property states: an atom of the interaction is scheduled for removal -/
 def atomsHitRemoved (removed : List Nat) (k : Key) : Bool := k.atoms.any (fun x => removed.contains x)
 
 structure Output where
@@ -400,7 +402,7 @@ def finish (s : St) : Output :=
   let atoms := s.attrs.filter (fun p => !s.removed.contains p.1)
   { atoms := if s.removed.isEmpty then atoms else renumber atoms,
     edges := s.edges.filter (fun e => !s.removed.contains e.1 && !s.removed.contains e.2),
-    ixns := s.store.filter (fun kv => !keyHitsRemoved s.removed kv.1),
+    ixns := s.store.filter (fun kv => !atomsHitRemoved s.removed kv.1),
     removed := s.removed }
 
 def applyLinks (inp : Input) : Output := finish (loopSt inp)
